@@ -50,6 +50,8 @@ def run(P, rep, tier):
     rep.attempt(r7_harvest_order, P, rep, ctx)
     rep.attempt(r8_partial_type_hints, P, rep, ctx)
     rep.attempt(r9_partial_class_identity, P, rep, ctx)
+    rep.attempt(r10_no_lossy_dumps, P, rep, ctx)
+    rep.attempt(r11_no_new_module_state, P, rep, ctx)
     rep.floor("C14.R1", 6)
     rep.floor("C14.R2", 6)
     rep.floor("C14.R3", 3)
@@ -96,6 +98,53 @@ def r8_partial_type_hints(P, rep, ctx):
         break
     if n == 0:
         rep.info("C14.R8: Optional branch of make_typehint is spelled in a way the rule does not evaluate (no verdict)")
+
+
+LOSSY_DUMP_KW = ("exclude_unset", "exclude_defaults", "exclude", "include")
+
+
+def r10_no_lossy_dumps(P, rep, ctx):
+    """"No provided value is ever dropped": when a model object is turned into a dict on the way to a partial (or back), only
+    None -- the representation of "missing" -- may be left out.  `exclude_unset` / `exclude_defaults` / `exclude` / `include`
+    drop values that are present on the object (set by a validator, assigned after construction, equal to a default)."""
+    n = 0
+    for fi in P.functions.values():
+        if fi.module.name not in ("schema.partial", "harvester", "schema.core"):
+            continue
+        if fi.module.name == "schema.core" and not (fi.cls is not None and "Partial" in fi.cls.name):
+            continue
+        for c in local_calls(fi.node):
+            if isinstance(c.func, ast.Attribute) and c.func.attr in ("dict", "json", "copy", "_iter"):
+                n += 1
+                bad = [k.arg for k in c.keywords if k.arg in LOSSY_DUMP_KW and not (isinstance(k.value, ast.Constant) and k.value.value in (False, None))]
+                rep.check(not bad, "C14.R10", fi.qual, f"{norm(c)[:50]} keeps every value that is not None", fi.loc(c), construct=f"{fi.name}: {norm(c)[:70]}",
+                          message=f"`{norm(c)[:90]}` in {fi.qual} drops values by {bad}: a value that is on the object but was not passed to its constructor (or equals a default) is lost when the object is merged")
+    if n == 0:
+        rep.ok("C14.R10", "schema.partial", "no model dumps on the partial path (nothing to check)", "")
+
+
+PARTIAL_MODULE_STATE = {"_partials", "_forwardrefs"}
+
+
+def r11_no_new_module_state(P, rep, ctx):
+    """The merge is a function of its operands' *current* values.  The partial machinery keeps exactly two module-level tables
+    (partial classes and their forward references, both keyed by class).  Any further module-level mutable table -- e.g. a
+    cache of converted objects keyed by identity -- makes a result depend on what was merged before."""
+    m = P.module("schema.partial")
+    for st in m.tree.body:
+        tg = st.targets[0] if isinstance(st, ast.Assign) and len(st.targets) == 1 else st.target if isinstance(st, ast.AnnAssign) else None
+        val = getattr(st, "value", None)
+        if not isinstance(tg, ast.Name) or val is None:
+            continue
+        mutable = isinstance(val, (ast.Dict, ast.List, ast.Set, ast.DictComp, ast.ListComp, ast.SetComp)) or (isinstance(val, ast.Call) and norm(val.func).split(".")[-1] in ("dict", "list", "set", "defaultdict", "OrderedDict", "WeakValueDictionary", "WeakKeyDictionary", "lru_cache", "deque"))
+        if not mutable:
+            continue
+        rep.check(tg.id in PARTIAL_MODULE_STATE, "C14.R11", "schema.partial", f"module-level table {tg.id} is one of the two class tables", f"{m.relpath}:{st.lineno}", construct=f"module-level {tg.id}",
+                  message=f"schema/partial.py keeps a new module-level mutable table `{tg.id}`: results of merging now depend on earlier merges (a cached conversion of an object that was changed since is merged with its old values)")
+    decos = [(fi, d) for fi in P.functions.values() if fi.module.name == "schema.partial" and isinstance(fi.node, ast.FunctionDef) for d in fi.node.decorator_list if norm(d).split("(")[0].split(".")[-1] in ("lru_cache", "cache", "cached_property", "memoize")]
+    for fi, d in decos:
+        rep.fail("C14.R11", fi.qual, f"@{norm(d)[:40]}", f"{fi.qual} is memoised (`@{norm(d)[:40]}`): a merge result depends on earlier calls, not on the operands' current values", fi.loc())
+    rep.ok("C14.R11", "schema.partial", "module state of the partial machinery checked", m.relpath)
 
 
 def r9_partial_class_identity(P, rep, ctx):
